@@ -50,6 +50,36 @@ CLAIMS = {
   "text": "Theorems reset_eq_empty, assemble_after_reset, assemble_deterministic, runSeq_reset_eq_map, watch_recheck_eq_check (and stale_table_matters: without the reset the result DOES depend on history) hold for every symbol table left behind and every source. Purity is structural in a functional model, so the property is carried by the correspondence: sequences of 2-6 sources (valid, failing in the lexer, failing after labels were recorded, sharing label names) assembled on one thread with reset_state() between them vs each on a fresh thread vs the model's runSeq.",
   "note": "Trusted: Lean kernel; axioms propext, Classical.choice, Quot.sound; any hidden state other than the symbol table and feature flags would be visible only to the correspondence, not to the theorem.",
   "ref": "DESIGN.md §4 C19"},
+ "C09": {
+  "technique": "Lean 4 proof (one-iteration stuttering simulation of the debugged run loop against the plain loop + induction over iterations, all scripts of non-mutating commands) + differential correspondence of whole debugger sessions incl. comparison with the undebugged run",
+  "text": "Theorem debug_transparent: for every machine, input, feature setting and every script of non-mutating commands of any length (ended by quit or end of input), a debugged run that ends — normally, with an error exit or in RTI's todo!() — ends exactly as an undebugged run of the same machine: same registers, memory, PC, CC, output, remaining input, exit status. Tied to the code on every run by running ~3k generated sessions on the real debugger and on the model and comparing every observable, plus the plain-vs-debugged verdict on the implementation itself.",
+  "note": "Trusted: Lean kernel; axioms propext, Classical.choice, Quot.sound; the hand-written debugger model is validated against the code by differential testing of whole sessions; minimal-mode stderr only; command text parsing is C14; sessions use .orig/.fill sources (real sources: C17).",
+  "ref": "DESIGN.md §4 C09"},
+ "C10": {
+  "technique": "Lean 4 proof (the session executes exactly the plain machine's instruction sequence: paused machine = reference machine advanced by #executed, for all scripts over the stepping alphabet; per-status one-iteration lemmas) + differential correspondence of sessions with the advanced-reference verdict",
+  "text": "Theorems paused_machine_on_trajectory (every script over step / step into k / step out / continue / break add/remove / exit, any program, any number of iterations), stepInto_iter, continue_iter, stepOver_iter, stepOver_pauses, stepOut_iter, cmd_step, cmd_stepInto, cmd_refused_at_halt. The big-step count statement ('step into N executes exactly N unless interrupted') follows from stepInto_iter by induction along the trajectory and is not stated as one theorem. Tied to the code by ~3k sessions per run compared on every observable, with the verdict 'paused machine = undebugged run advanced by #executed' evaluated on the implementation.",
+  "note": "Trusted: Lean kernel; axioms propext, Classical.choice, Quot.sound; the hand-written debugger model is validated against the code by differential testing of whole sessions; minimal-mode stderr only; command text parsing is C14; sessions use .orig/.fill sources (real sources: C17).",
+  "ref": "DESIGN.md §4 C10"},
+ "C11": {
+  "technique": "Lean 4 proof (breakpoint list strictly sorted as a loop invariant over all scripts; an armed breakpoint always forces a command read before the loop proceeds; execution re-arms) + differential correspondence of sessions",
+  "text": "Theorems bp_sorted_nodup (invariant over any number of iterations under any script), bp_pause_before_exec (any status, any arrival), exec_rearms (incl. one-instruction loops), no_bp_no_pause, runCommand_bps. Tied to the code by ~3k sessions per run with .break placements, run-time add/remove by address/label/PC offset, self-loops and every resuming command, compared on the command/execution interleaving, Reached::Breakpoint lines and the breakpoint list.",
+  "note": "Trusted: Lean kernel; axioms propext, Classical.choice, Quot.sound; the hand-written debugger model is validated against the code by differential testing of whole sessions; minimal-mode stderr only; command text parsing is C14; sessions use .orig/.fill sources (real sources: C17).",
+  "ref": "DESIGN.md §4 C11"},
+ "C12": {
+  "technique": "Lean 4 proof (saved initial state is invariant over every iteration and command; reset installs it; the rest of the run equals a fresh plain run) + differential correspondence with full 65,536-word comparison after reset",
+  "text": "Theorems initial_never_mutated (any script incl. move/goto/eval/reset, any program incl. self-modifying stores), reset_restores, reset_then_run_eq_fresh_run. The theorem is near-definitional in a functional model; the assurance that the Rust code neither shares nor mutates the saved state comes from the correspondence: histories ending in `reset; exit` must show registers, PC, CC and all 65,536 words equal to the loaded image.",
+  "note": "Trusted: Lean kernel; axioms propext, Classical.choice, Quot.sound; the hand-written debugger model is validated against the code by differential testing of whole sessions; minimal-mode stderr only; command text parsing is C14; sessions use .orig/.fill sources (real sources: C17).",
+  "ref": "DESIGN.md §4 C12"},
+ "C13": {
+  "technique": "Lean 4 proof (move changes exactly the named cell; a location is accepted iff its true address computed in Z lies in [orig, 0xFE00); refusals and inspections change nothing) + differential correspondence of probe sessions",
+  "text": "Theorems move_reg_frame, move_mem_frame, resolveUser_spec (absolute, label±offset, PC offset; no 16-bit wrap; origins ≥ 0x8000), oob_refused (move/goto/break add/remove), inspect_readonly (print/registers/assembly/break list). Tied to the code by ~3k probe sessions per run with wild locations and values, comparing the full machine, breakpoint list and error lines.",
+  "note": "Trusted: Lean kernel; axioms propext, Classical.choice, Quot.sound; the hand-written debugger model is validated against the code by differential testing of whole sessions; minimal-mode stderr only; command text parsing is C14; sessions use .orig/.fill sources (real sources: C17). resolveUser_spec assumes labels of a program that loaded (line ≥ 1, orig+line−1 < 2^16).",
+  "ref": "DESIGN.md §4 C13"},
+ "C16": {
+  "technique": "Lean 4 proof (every non-executing, non-terminating iteration reads a command — for every script and PC; iterations ≤ executed + commands) + differential correspondence with the iteration count from the run-loop tick hook",
+  "text": "Theorems no_spin (all scripts incl. mutating commands, all PCs incl. 0xFFFF, outside user space, on HALT), iter_mono, work_bound (a loop still running after n iterations has executed + read at least n). Tied to the code by ~3k sessions per run on programs that jump to 0xFFFF / out of user space / park on HALT with resuming commands issued there, then end of input; the bound iterations ≤ executed + commands + 1 is checked on the implementation with the tick hook.",
+  "note": "Trusted: Lean kernel; axioms propext, Classical.choice, Quot.sound; the hand-written debugger model is validated against the code by differential testing of whole sessions; minimal-mode stderr only; command text parsing is C14; sessions use .orig/.fill sources (real sources: C17).",
+  "ref": "DESIGN.md §4 C16"},
 }
 
 def main():
